@@ -100,6 +100,7 @@ type State struct {
 	timerByPtr  map[*Value]*Timer
 	ptrIDs      map[interface{}]uint64
 	lenientFmt  int
+	hashGlobals []*ssa.Global
 	startThread func(t *Thread, body func())
 }
 
@@ -530,6 +531,7 @@ func (eng *Engine) runPath(ps *PathSolver, entry *ssa.Function, prefix []Dec, co
 		finished: make(chan struct{}), syncObjs: map[*Value]*syncObj{},
 		now:      1_000_000_000_000, concrete: concrete,
 		accessLog: map[interface{}]*accessInfo{}, timerByPtr: map[*Value]*Timer{},
+		hashGlobals: eng.hashGlobals,
 	}
 	ps.beginPath()
 	res = &PathResult{}
@@ -595,6 +597,7 @@ type EntryStats struct {
 	Paths        int
 	Completed    int
 	Infeasible   int
+	Pruned       int
 	SymbolicPath int
 	Decisions    int
 	Forks        int
@@ -614,6 +617,10 @@ type EntryStats struct {
 }
 
 func (eng *Engine) explore(entry *ssa.Function, maxPaths int, deadline time.Time) *EntryStats {
+	eng.visited = nil
+	if eng.cfg.Preemptions >= 0 && !eng.cfg.NoStateHash {
+		eng.visited = &visitedSet{m: map[hash128]int{}}
+	}
 	es := &EntryStats{Entry: entry.Name(), Covers: map[string]bool{}, Asserts: map[string]int{}, Funcs: map[string]bool{}, Intr: map[string]bool{}, Races: map[string]bool{}}
 	t0 := time.Now()
 	var mu sync.Mutex
@@ -668,6 +675,8 @@ func (eng *Engine) explore(entry *ssa.Function, maxPaths int, deadline time.Time
 					}
 				case "infeasible":
 					es.Infeasible++
+				case "pruned":
+					es.Pruned++
 				default:
 					key := res.Status + ": " + res.Msg
 					if !incon[key] {
